@@ -19,7 +19,9 @@ RULE = (
     "seeded random scenes (object type x 1-4 slices x 1-3 modes x odd/even/non-square ROI x fractional raster scan x padding x loss type x batch size) "
     "simulated by an independent float64 multislice simulator; kinds: no_shift general, no_shift with detector mask, no_shift with non-orthogonal modes and "
     "orthogonalisation off, no_shift through the learned-descan target path (dataset optimiser, lr 0), constant descan on integer-centre symmetric scenes with and "
-    "without an integer detector roll; non-trivial = object phase std >= 0.1 rad, >= 2 fractional scan positions, loss(perturbed) >= 1e-4; "
+    "without an integer detector roll; 2 cases in 5 share their process with another, unrelated Ptychography object that gets non-default object/probe/dataset "
+    "constraints through every public route, other optimizers and short reconstructions with and without reset - before the scene under test is built, "
+    "after it is built but before it is judged, or built before and used after; non-trivial = object phase std >= 0.1 rad, >= 2 fractional scan positions, loss(perturbed) >= 1e-4; "
     "distinct = (kind, type, slices, modes, roi parity/squareness, batch class)"
 )
 ASSUMPTIONS = [
@@ -27,6 +29,7 @@ ASSUMPTIONS = [
     "constant descan judged only on scenes whose mean centre of mass is an integer to 2e-6 px (measured by the harness on its own data); otherwise the library resamples the data and zero loss is not implied",
     "thresholds: loss(truth) <= r * loss(perturbed) with r = 1e-6 (l2) / 1e-3 (l1: float32 rounding of 1e4 pixels of ~1e4 counts); gradient ratio 3e-3 (no_shift) / 1e-2 (constant)",
     "absorbing objects and plane/parabola descan fits are outside the claim (property text)",
+    "the other ('foreign') Ptychography object of a case only uses public routes on itself (constraints, optimizers, reconstruct, reset); its steps may raise (caught, counted as foreign_raised:*) and its results are not judged; the scene under test always keeps the library's default constraints",
 ]
 BUDGET = {"quick": {"soft_s": 300, "workers": 14}, "thorough": {"soft_s": 1200, "workers": 14}}
 MIN_EVALUATIONS = {"quick": 30, "thorough": 300}
@@ -80,6 +83,121 @@ def _perturb_probe(rng, sc):
     ph = 1.2 * k2 + 0.5 * (kr - kc) / 0.5
     far = np.fft.fft2(sc.probes, norm="ortho") * np.exp(1j * ph)[None]
     return np.fft.ifft2(far, norm="ortho")
+
+
+# ---- another Ptychography object of the same process ("foreign"): built and used before / between / after the construction of the
+# scene under test.  Nothing it does may change what the scene under test computes; its own results are not judged. -----------------
+FOREIGN_OBJECT = {"identical_slices": True, "gaussian_sigma": [0.7, 1.5], "q_lowpass": [0.3, 0.8], "q_highpass": [0.02, 0.08], "butterworth_order": [2, 6],
+                  "apply_fov_mask": True, "positivity": False, "fix_potential_baseline": True, "fix_potential_baseline_factor": [0.5, 2.0],
+                  "tv_weight_z": [0.01, 0.3], "tv_weight_xy": [0.01, 0.3], "surface_zero_weight": [0.01, 0.3]}
+FOREIGN_PROBE = {"orthogonalize_probe": False, "center_probe": True, "tv_weight": [0.01, 0.3]}
+# (clip_scan_positions=False is left out: on the unchanged tree dset.forward then raises KeyError - see the comment on clipping below)
+FOREIGN_DATASET = {"descan_tv_weight": [0.01, 0.3], "descan_shifts_constant": True, "center_scan_positions": True}
+
+
+def _draw_constraints(rng, table, kmin=1):
+    keys = list(table)
+    n = int(rng.integers(kmin, min(len(keys), 4) + 1))
+    out = {}
+    for k in rng.choice(len(keys), size=n, replace=False):
+        v = table[keys[int(k)]]
+        out[keys[int(k)]] = float(rng.uniform(*v)) if isinstance(v, list) and isinstance(v[0], float) else (int(rng.integers(v[0], v[1] + 1)) if isinstance(v, list) else v)
+    return out
+
+
+class _Foreign:
+    """build(): a small unrelated scene through the library's construction path (other object type / slices / modes / probe parameters /
+    descan fit); use(): non-default object, probe and dataset constraints through every public route (model setter, model add_constraint,
+    Ptychography.constraints setter, reconstruct(constraints=...) with and without reset=True), other optimizers / schedulers / loss /
+    batch size, short reconstructions, resets.  Every step is allowed to raise (caught, counted): the object is only there to have been used."""
+
+    def __init__(self, rng, ctx, scenes):
+        self.rng, self.ctx, self.scenes, self.pt = rng, ctx, scenes, None
+
+    def _step(self, name, fn):
+        import contextlib, io
+
+        try:
+            with contextlib.redirect_stdout(io.StringIO()):
+                fn()
+            self.ctx.count("foreign:" + name)
+        except Exception as e:  # noqa: BLE001
+            self.ctx.count("foreign_raised:%s:%s" % (name, type(e).__name__))
+
+    def build(self):
+        rng, scenes = self.rng, self.scenes
+        sc = scenes.make_scene(rng, gpts=(int(rng.integers(3, 5)), int(rng.integers(3, 5))), roi=(int(rng.integers(8, 13)), int(rng.integers(8, 13))),
+                               num_slices=int(rng.integers(1, 4)), num_modes=int(rng.integers(1, 4)), pad_req=(int(rng.integers(2, 7)), int(rng.integers(2, 7))))
+        I = scenes.simulate_scene(sc)
+        kw = dict(com_fit=str(rng.choice(["no_shift", "constant", "plane"])), install_truth=bool(rng.random() < 0.5), obj_init=None if rng.random() < 0.5 else "uniform",
+                  learn_descan=bool(rng.random() < 0.5), learn_scan_positions=bool(rng.random() < 0.3), orthogonalize=bool(rng.random() < 0.7),
+                  probe_from="array" if rng.random() < 0.5 else "params", seed=int(rng.integers(1 << 30)))
+        self.J = int(np.prod(sc.gpts))
+        self.learnable_dataset = kw["learn_descan"] or kw["learn_scan_positions"]  # (a dataset optimizer without learnable parameters is rejected, loudly)
+
+        def _b():
+            self.pt = scenes.build_library(sc, I, **kw)
+
+        self._step("build", _b)
+        return self
+
+    def use(self):
+        rng, pt = self.rng, self.pt
+        if pt is None:
+            return self
+        J = self.J
+
+        def opt():
+            o = {}
+            for key, lr in (("object", 10 ** rng.uniform(-4, -1)), ("probe", 10 ** rng.uniform(-5, -2)), ("dataset", 10 ** rng.uniform(-3, 0))):
+                if key == "object" or (rng.random() < 0.5 and (key != "dataset" or self.learnable_dataset)):
+                    o[key] = {"type": str(rng.choice(["adam", "adamw", "sgd"])), "lr": float(lr)}
+            return o
+
+        def sched():
+            return None if rng.random() < 0.5 else {"object": [{"type": "exp", "factor": 0.5}, {"type": "plateau", "factor": 0.5}, {"type": "cyclic"}, {"type": "linear"}][int(rng.integers(4))]}
+
+        def recon(reset, with_constraints):
+            c = {}
+            if with_constraints:
+                c = {"object": _draw_constraints(rng, FOREIGN_OBJECT, 2)}
+                if rng.random() < 0.6:
+                    c["probe"] = _draw_constraints(rng, FOREIGN_PROBE)
+                if rng.random() < 0.6:
+                    c["dataset"] = _draw_constraints(rng, FOREIGN_DATASET)
+            kws = dict(num_iters=int(rng.integers(1, 3)), reset=reset, constraints=c, optimizer_params=opt(), scheduler_params=sched(),
+                       batch_size=int(rng.integers(1, J + 1)), loss_type=str(rng.choice(LOSSES + ["poisson"])))
+            return lambda: pt.reconstruct(**kws)
+
+        oc1, oc2, oc3 = (_draw_constraints(rng, FOREIGN_OBJECT, 2) for _ in range(3))
+        pc1, pc2 = _draw_constraints(rng, FOREIGN_PROBE), _draw_constraints(rng, FOREIGN_PROBE)
+        dc1, dc2 = _draw_constraints(rng, FOREIGN_DATASET), _draw_constraints(rng, FOREIGN_DATASET)
+
+        def model_setters():
+            pt.obj_model.constraints = oc1
+            pt.probe_model.constraints = pc1
+            pt.dset.constraints = dc1
+
+        def add_constraints():
+            for m, c in ((pt.obj_model, oc2), (pt.probe_model, pc2), (pt.dset, dc2)):
+                for k, v in c.items():
+                    m.add_constraint(k, v)
+
+        def top_setter():
+            pt.constraints = {"object": oc3, "probe": dict(pc1), "dataset": dict(dc2)}
+
+        def reads():
+            _ = (pt.constraints, pt.obj_model.obj.shape, pt.probe_model.probe.shape, pt.obj_model.constraints, pt.obj_model.DEFAULT_CONSTRAINTS)
+
+        steps = [("model_constraints_setter", model_setters), ("add_constraint", add_constraints), ("ptychography_constraints_setter", top_setter),
+                 ("reconstruct_reset_constraints", recon(True, True)), ("reconstruct_constraints", recon(False, True)), ("reconstruct_reset", recon(True, False)),
+                 ("reset_recon", pt.reset_recon), ("reads", reads)]
+        order = [int(i) for i in rng.permutation(len(steps))]
+        # (every session contains reconstruct(reset=True, constraints=...) followed by further routes on the reset object, and the same routes before it)
+        tail = [int(i) for i in rng.permutation(3)] + [7]
+        for i in order + tail:
+            self._step(*steps[i])
+        return self
 
 
 def run_case(spec, idx, ctx):
@@ -230,6 +348,20 @@ def _run_case(spec, idx, ctx, global_state=None):
     def build_lib(scene):
         return scenes.build_library(scene, I, detector_mask=mask, seed=int(rng.integers(1 << 30)), **build)
 
+    # another Ptychography object in the same process: built and used before the scene under test exists ("before"), after the objects
+    # under test were built but before they are judged ("after_build"), or built before and used after ("interleaved")
+    fmode = {0: "before", 3: ("after_build", "interleaved")[(idx // 5) % 2]}.get(idx % 5)
+    foreign = None
+    if fmode:
+        common["foreign_object"] = fmode
+        ctx.count("foreign_object:" + fmode)
+        foreign = _Foreign(ctx.rng(idx, 7), ctx, scenes)
+        if fmode in ("before", "interleaved"):
+            foreign.build()
+        if fmode == "before":
+            foreign.use()
+            if (idx // 10) % 2:
+                foreign = None  # (otherwise it stays alive while the scene under test is judged)
     pt = build_lib(sc)
     if idx % 6 == 1:
         # calls that are neutral for the forward pipeline, between construction and use
@@ -272,6 +404,12 @@ def _run_case(spec, idx, ctx, global_state=None):
     sc_pp = dataclasses.replace(sc, probes=_perturb_probe(rng, sc))
     pt_po = build_lib(sc_po)
     pt_pp = build_lib(sc_pp)
+    if fmode in ("after_build", "interleaved"):
+        if fmode == "after_build":
+            foreign.build()
+        foreign.use()
+        if (idx // 10) % 2:
+            foreign = None
     J = int(np.prod(sc.gpts))
     bsizes = [J]  # (batch_size=None means "keep the previous batch size" in reconstruct(), so the full batch is passed explicitly)
     if J > 1:
